@@ -135,6 +135,10 @@ class Check(BaseCheck):
             specs.append({'campaign': 'mutation', 'seed': seed, 'i': i, 'k': 16})
         for k in range(4 if q else 8):
             specs.append({'campaign': 'order', 'seed': seed, 'perm': k, 'per_function': 14 if q else 60})
+        for i in range(4):
+            specs.append({'campaign': 'retention_each', 'i': i, 'k': 4, 'N': 150 if q else 600})
+        for i in range(8):
+            specs.append({'campaign': 'fault_repetition', 'i': i, 'N': 260 if q else 1500, 'seed': seed})
         specs.append({'campaign': 'retention', 'K': 120 if q else 400, 'R': 8 if q else 30, 'seed': seed, 'mix': 'failing'})
         specs.append({'campaign': 'retention', 'K': 120 if q else 400, 'R': 8 if q else 30, 'seed': seed, 'mix': 'succeeding'})
         return specs
@@ -285,13 +289,18 @@ class Check(BaseCheck):
         p.set_function('GIVE', giver)
         shared = [3, 1, 2]
         lists = {'v_a': [3, 1, 2, 2.5, -1], 'v_b': [[3, 1], [2, 4]], 'v_c': shared, 'v_d': shared, 'v_e': ['b', 'a', 'c'], 'v_f': [1, [2, [3, [4]]]], 'v_g': [], 'v_h': [None, 0, '', False],
-                 'v_i': [0.5], 'v_j': [2, 1, 3, 1, 2], 'v_k': ['x', 1, None, True, 2.5], 'v_s': 'text', 'v_n': 2, 'v_t': True}
+                 'v_i': [0.5], 'v_j': [2, 1, 3, 1, 2], 'v_k': ['x', 1, None, True, 2.5], 'v_s': 'text', 'v_n': 2, 'v_t': True,
+                 'v_m': ['b', None, 'a', None], 'v_o': [3, None, 1], 'v_p': [[2, None], [None, 1]], 'v_q': ['2', '1', 'x'], 'v_r': [True, False, None]}
         for n, v in lists.items():
             p.set_variable(n, v)
         snap = {n: canon(v) for n, v in lists.items()}
         argsets = [('v_a',), ('v_b',), ('v_c', 'v_d'), ('v_e',), ('v_f',), ('v_a', 'v_n'), ('v_n', 'v_a'), ('v_a', 'v_a'), ('v_j', 'v_n'), ('v_k',), ('v_h',), ('A1:B2',), ('B2',),
                    ('GIVE()',), ('v_a', 'v_s'), ('v_s', 'v_e', 'v_s'), ('v_a', '">1"'), ('v_j', 'v_j', '">1"'), ('v_n', 'v_a', 'v_n'), ('v_b', 'v_n', 'v_n'), ('v_t', 'v_a', 'v_e'), ('v_g',),
-                   ('v_a', 'v_j', '">=2"', 'v_j', '"<3"'), ('v_s', 'v_t', 'v_k', 'v_e'), ('v_i', 'v_a'), ('{1,2}', 'v_a'), ('v_a', 'GIVE()', 'A1:B2')]
+                   ('v_a', 'v_j', '">=2"', 'v_j', '"<3"'), ('v_s', 'v_t', 'v_k', 'v_e'), ('v_i', 'v_a'), ('{1,2}', 'v_a'), ('v_a', 'GIVE()', 'A1:B2'),
+                   # lists holding blanks / text / logicals, and both settings of flag arguments
+                   ('v_m',), ('v_o',), ('v_p',), ('v_q',), ('v_r',), ('v_s', 'FALSE', 'v_m'), ('v_s', 'TRUE', 'v_m'), ('v_s', 'FALSE', 'v_h'), ('v_s', 'FALSE', 'v_o', 'v_m'),
+                   ('v_m', 'v_n'), ('v_n', 'v_m'), ('v_o', 'v_n'), ('v_o', 'v_o'), ('v_m', 'v_s', 'v_s'), ('v_q', '"1"'), ('v_r', 'v_r'), ('v_o', '">0"'), ('v_p', 'v_n', 'v_n'),
+                   ('v_s', 'v_n', 'v_m'), ('FALSE', 'v_m'), ('TRUE', 'v_o'), ('v_m', 'FALSE'), ('v_o', 'TRUE')]
         forms = []
         for fn in names:
             for args in argsets:
@@ -342,6 +351,12 @@ class Check(BaseCheck):
                 ar = rnd.choice([1, 1, 2, 2, 3])
                 args = [rnd.choice(nums if rnd.random() < 0.7 else texts) for _ in range(ar)]
                 out.append('%s(%s)' % (fn, ','.join(args)))
+        for fn in formulas.supported():
+            if fn in NONDET:
+                continue
+            for arr in ('{1,2}', '{TRUE,2}', '{1.0,2}', '{0,2}', '{FALSE,2}', '{0.0,2}', '{"1",2}'):
+                out.append('%s(%s)' % (fn, arr))
+                out.append('%s(%s,1)' % (fn, arr))
         out += [f for f in self.probes(rnd, 200)]
         # operators over values that are equal-but-differently-typed (1, TRUE, 1.0, "1" ...): an untyped cache shows here
         atoms = ['1', 'TRUE', '1.0', '"1"', '0', 'FALSE', '0.0', '""', 'NULL', '2', '"a"', '-1', 'DATE(2020,1,1)', '43831', '{1,2}', 'lst']
@@ -466,6 +481,94 @@ class Check(BaseCheck):
         if tb1 - tb0 >= R * 4 and tb1 > 4 * tb0 + 50:
             rec.violation('C02/error-singletons-accumulate-tracebacks', before=tb0, after=tb1, passes=R)
         rec.sample({'corpus': corpus[:6], 'passes': R, 'block_deltas': deltas})
+
+    # ------------------------------------------------------------------ (c') retention of ONE formula repeated
+    def c_retention_each(self, spec, rec):
+        """In a mixed corpus another formula may happen to release what this one retains (a traceback chain cleared by the next
+        raised error).  So every formula is also repeated on its own: growth in both halves of the repetition is retention."""
+        from hotxlfp import formulas
+        b = Bindings()
+        p = build(b, False)
+        fs = []
+        for fn in formulas.supported():
+            for args in ('1/0', '1,NA()', 'A1:B2,1/0', 'lst,ERRR(1)'):
+                fs.append('%s(%s)' % (fn, args))
+                fs.append('IFERROR(%s(%s),0)' % (fn, args))
+        fs += ['1/0', 'NA()+1', 'ERRR(1)', 'BOOM(1)', 'SYN(1)', 'nosuch', 'NOSUCH(1)', '1+', u'\xa7', '#REF!', 'A1:B2:C3', 'IFERROR(ERRR(1),2)', '-(1/0)', '(1/0)&"a"', '(1/0)=1',
+               'CONCATENATE(1/0)', 'INDEX(lst,99)', 'A1+B2', 'SUM(A1:B2)', 'foo', 'CF(lst)', 'INNER(1)', '{1,2}+{1,2,3}', 'Z9+BOOM()']
+        fs = fs[spec['i']::spec['k']]
+        N = spec['N']
+        marks = [0, 0, 0]
+        for f in fs:
+            for _ in range(12):
+                p.parse(f)
+            gc.collect()
+            marks[0] = sys.getallocatedblocks()
+            for _ in range(N):
+                p.parse(f)
+            gc.collect()
+            marks[1] = sys.getallocatedblocks()
+            for _ in range(N):
+                p.parse(f)
+            gc.collect()
+            marks[2] = sys.getallocatedblocks()
+            rec.case(2 * N)
+            rec.nt(('each', f))
+            d1, d2 = marks[1] - marks[0], marks[2] - marks[1]
+            if d1 >= N // 3 and d2 >= N // 3:
+                tb = 0
+                for e in hx.error_objects().values():
+                    t = e.__traceback__
+                    while t is not None:
+                        tb += 1
+                        t = t.tb_next
+                rec.violation('C02/memory-retained-per-evaluation:one-formula-repeated:%s' % ('traceback-chain' if tb > N else 'other'), formula=f, repetitions=N,
+                              blocks_first_half=d1, blocks_second_half=d2, traceback_chain_length=tb)
+                for e in hx.error_objects().values():       # report each formula on its own merits
+                    e.__traceback__ = None
+            rec.count('formulas_repeated')
+        rec.sample({'formula': fs[0], 'repetitions': 2 * N})
+
+    # ------------------------------------------------------------------ (a'') many aborted evaluations, then a probe
+    def c_fault_repetition(self, spec, rec):
+        """the same kind of failing evaluation N times on one parser (a counter that leaks one step per fault needs many), then probes"""
+        import random
+        rnd = random.Random('faultrep:%s:%s' % (spec['seed'], spec['i']))
+        kinds = ['cell-listener-raises', 'range-listener-raises', 'variable-listener-raises', 'function-listener-raises', 'custom-function-raises', 'syntax-error',
+                 'unknown-name', 'error-literal']
+        kind = kinds[spec['i'] % len(kinds)]
+        b = Bindings()
+        state = {'raise': True}
+        aged = build(b, False)
+        fresh_extra = []
+
+        def raising(*a):
+            if state['raise']:
+                raise KeyError('host lookup failed')
+        ev = {'cell-listener-raises': 'callCellValue', 'range-listener-raises': 'callRangeValue', 'variable-listener-raises': 'callVariable',
+              'function-listener-raises': 'callFunction'}.get(kind)
+        if ev:
+            aged.on(ev, raising)
+        f = {'cell-listener-raises': 'A1+1', 'range-listener-raises': 'SUM(A1:B2)', 'variable-listener-raises': 'foo+1', 'function-listener-raises': 'CF(1)+1',
+             'custom-function-raises': 'BOOM(1)+A1', 'syntax-error': 'A1+(', 'unknown-name': 'A1+nosuch', 'error-literal': 'A1+#REF!'}[kind]
+        for _ in range(spec['N']):
+            aged.parse(f)
+            rec.case()
+        state['raise'] = False
+        hist = [('parse x%d' % spec['N'], f)]
+        for pf in self.probes(rnd, 40) + ['A1+B2', 'SUM(A1:B2)', 'foo*2', 'CF(A1,foo)', 'A1&foo']:
+            # the fresh parser carries the same (now silent) listener
+            oa = outcome(aged.parse(pf))
+            fresh = build(b, False)
+            if ev:
+                fresh.on(ev, raising)
+            of = outcome(fresh.parse(pf))
+            rec.case()
+            rec.nt((kind, pf))
+            if oa != of:
+                rec.violation('C02/outcome-depends-on-history:after-many-aborted-evaluations:' + kind, probe=pf, aged=oa, fresh=of, repeated_formula=f, repetitions=spec['N'])
+        rec.cov('fault_repetition_kinds', kind)
+        rec.sample({'repeated': f, 'times': spec['N'], 'kind': kind})
 
     # ------------------------------------------------------------------ sentinels
     def c_sentinels(self, spec, rec):
